@@ -12,6 +12,12 @@
 (*   Revoke/Unrevoke   revoke_credentials / unrevoke_credentials           *)
 (*   Validate(t, sc)   JwtCredentialValidator::validate of an EARLIER      *)
 (*                     token t against the document AS IT IS NOW           *)
+(*   Rebase            (IotaDocument) the document is packed into state    *)
+(*                     metadata and unpacked under ANOTHER DID -- what     *)
+(*                     happens when a document created under the           *)
+(*                     placeholder DID is published (C14 + MethodDigest):  *)
+(*                     every self-reference moves to the new DID, the      *)
+(*                     stores are untouched                                *)
 (*                                                                         *)
 (* Every generated key has a generation number (a fresh key each time), a  *)
 (* token remembers the fragment and the generation it was signed with.     *)
@@ -25,7 +31,12 @@
 (*   - revocation of an index is visible to every later validation and     *)
 (*     un-revocation restores exactly that index;                          *)
 (*   - signing needs the method AND its key: after a purge nothing can be  *)
-(*     issued under that fragment until it is generated again.             *)
+(*     issued under that fragment until it is generated again;             *)
+(*   - after a rebase every method keeps its key (the key-id store is      *)
+(*     keyed by fragment and key material, not by the DID): issuing and    *)
+(*     purging go on working, while tokens issued under the other DID no   *)
+(*     longer validate against this document (and do again if it moves     *)
+(*     back).                                                              *)
 (***************************************************************************)
 EXTENDS Naturals, Sequences, FiniteSets, TLC, Json
 
@@ -33,14 +44,16 @@ CONSTANTS Frags,      \* fragments of verification methods
           Idx,        \* revocation indices (classes; the harness maps them to concrete u32 indices)
           MaxGen,     \* at most this many keys are ever generated
           MaxTokens,  \* at most this many credentials are issued
-          Depth       \* behaviours are emitted at this length
+          Depth,      \* behaviours are emitted at this length
+          WithRebase  \* BOOLEAN: include the Rebase action (IotaDocument only)
 
 VARIABLES meth,      \* [Frags -> [gen : 0..MaxGen, scope : {"none","vm","emb"}, attached : BOOLEAN]]   gen = 0: absent
           nextGen,
           revoked,   \* SUBSET Idx
-          tokens,    \* sequence of [f, gen, i]
+          tokens,    \* sequence of [f, gen, i, e]
+          epoch,     \* which of its two DIDs the document has now (0 / 1)
           hist       \* sequence of [op, res]  (observation only)
-vars == <<meth, nextGen, revoked, tokens, hist>>
+vars == <<meth, nextGen, revoked, tokens, epoch, hist>>
 
 Absent == [gen |-> 0, scope |-> "none", attached |-> FALSE]
 
@@ -54,7 +67,7 @@ Err(k) == [ok |-> FALSE, err |-> k]
 
 Record(op, res) == hist' = Append(hist, [op |-> op, res |-> res])
 
-Init == /\ meth = [f \in Frags |-> Absent] /\ nextGen = 1 /\ revoked = {} /\ tokens = <<>> /\ hist = <<>>
+Init == /\ meth = [f \in Frags |-> Absent] /\ nextGen = 1 /\ revoked = {} /\ tokens = <<>> /\ epoch = 0 /\ hist = <<>>
 
 Generate(f, sc) ==
   /\ nextGen <= MaxGen
@@ -64,13 +77,13 @@ Generate(f, sc) ==
           /\ Record([name |-> "generate", f |-> f, scope |-> sc], [ok |-> TRUE])
      ELSE /\ UNCHANGED <<meth, nextGen>>
           /\ Record([name |-> "generate", f |-> f, scope |-> sc], Err("exists"))
-  /\ UNCHANGED <<revoked, tokens>>
+  /\ UNCHANGED <<revoked, tokens, epoch>>
 
 Purge(f) ==
   /\ IF meth[f].gen # 0
      THEN meth' = [meth EXCEPT ![f] = Absent] /\ Record([name |-> "purge", f |-> f], [ok |-> TRUE])
      ELSE UNCHANGED meth /\ Record([name |-> "purge", f |-> f], Err("not_found"))
-  /\ UNCHANGED <<nextGen, revoked, tokens>>
+  /\ UNCHANGED <<nextGen, revoked, tokens, epoch>>
 
 \* attach_method_relationship(assertionMethod): only general purpose methods can be attached; Ok(false) if already attached
 Attach(f) ==
@@ -79,7 +92,7 @@ Attach(f) ==
      ELSE IF m.scope = "emb" THEN UNCHANGED meth /\ Record([name |-> "attach", f |-> f], Err("embedded"))
      ELSE /\ meth' = [meth EXCEPT ![f].attached = TRUE]
           /\ Record([name |-> "attach", f |-> f], [ok |-> TRUE, changed |-> ~m.attached])
-  /\ UNCHANGED <<nextGen, revoked, tokens>>
+  /\ UNCHANGED <<nextGen, revoked, tokens, epoch>>
 
 Detach(f) ==
   /\ LET m == meth[f] IN
@@ -87,23 +100,24 @@ Detach(f) ==
      ELSE IF m.scope = "emb" THEN UNCHANGED meth /\ Record([name |-> "detach", f |-> f], Err("embedded"))
      ELSE /\ meth' = [meth EXCEPT ![f].attached = FALSE]
           /\ Record([name |-> "detach", f |-> f], [ok |-> TRUE, changed |-> m.attached])
-  /\ UNCHANGED <<nextGen, revoked, tokens>>
+  /\ UNCHANGED <<nextGen, revoked, tokens, epoch>>
 
 Issue(f, i) ==
   /\ Len(tokens) < MaxTokens
   /\ IF meth[f].gen # 0
-     THEN /\ tokens' = Append(tokens, [f |-> f, gen |-> meth[f].gen, i |-> i])
+     THEN /\ tokens' = Append(tokens, [f |-> f, gen |-> meth[f].gen, i |-> i, e |-> epoch])
           /\ Record([name |-> "issue", f |-> f, i |-> i], [ok |-> TRUE, token |-> Len(tokens) + 1])
      ELSE /\ UNCHANGED tokens /\ Record([name |-> "issue", f |-> f, i |-> i], Err("method_not_found"))
-  /\ UNCHANGED <<meth, nextGen, revoked>>
+  /\ UNCHANGED <<meth, nextGen, revoked, epoch>>
 
-Revoke(i)   == revoked' = revoked \cup {i} /\ Record([name |-> "revoke", i |-> i], [ok |-> TRUE]) /\ UNCHANGED <<meth, nextGen, tokens>>
-Unrevoke(i) == revoked' = revoked \ {i}    /\ Record([name |-> "unrevoke", i |-> i], [ok |-> TRUE]) /\ UNCHANGED <<meth, nextGen, tokens>>
+Revoke(i)   == revoked' = revoked \cup {i} /\ Record([name |-> "revoke", i |-> i], [ok |-> TRUE]) /\ UNCHANGED <<meth, nextGen, tokens, epoch>>
+Unrevoke(i) == revoked' = revoked \ {i}    /\ Record([name |-> "unrevoke", i |-> i], [ok |-> TRUE]) /\ UNCHANGED <<meth, nextGen, tokens, epoch>>
 
 \* the verdict of validating token number k against the document as it is now
 Verdict(t, sc) ==
   LET m == meth[t.f] IN
-  IF m.gen = 0 THEN Err("method_lookup")
+  IF t.e # epoch THEN Err("document_mismatch")        \* the token names a method of another DID
+  ELSE IF m.gen = 0 THEN Err("method_lookup")
   ELSE IF sc = "assertionMethod" /\ ~InAssertion(m) THEN Err("method_lookup")
   ELSE IF sc = "vm" /\ ~InVm(m) THEN Err("method_lookup")
   ELSE IF m.gen # t.gen THEN Err("signature")
@@ -113,6 +127,12 @@ Verdict(t, sc) ==
 Validate(k, sc) ==
   /\ k \in 1..Len(tokens)
   /\ Record([name |-> "validate", token |-> k, scope |-> sc], Verdict(tokens[k], sc))
+  /\ UNCHANGED <<meth, nextGen, revoked, tokens, epoch>>
+
+Rebase ==
+  /\ WithRebase
+  /\ epoch' = 1 - epoch
+  /\ Record([name |-> "rebase", to |-> 1 - epoch], [ok |-> TRUE])
   /\ UNCHANGED <<meth, nextGen, revoked, tokens>>
 
 Next ==
@@ -122,6 +142,7 @@ Next ==
      \/ \E f \in Frags, i \in Idx : Issue(f, i)
      \/ \E i \in Idx : Revoke(i) \/ Unrevoke(i)
      \/ \E k \in 1..MaxTokens, sc \in {"none", "assertionMethod", "vm"} : Validate(k, sc)
+     \/ Rebase
 
 Spec == Init /\ [][Next]_vars
 
@@ -137,7 +158,7 @@ FreshKeys == /\ \A f, g \in Frags : (f # g /\ meth[f].gen # 0) => meth[f].gen # 
 AcceptedMeansLive ==
   (hist # <<>> /\ hist[Len(hist)].op.name = "validate" /\ hist[Len(hist)].res.ok) =>
      LET t == tokens[hist[Len(hist)].op.token]  m == meth[t.f] IN
-     /\ m.gen = t.gen /\ t.i \notin revoked
+     /\ m.gen = t.gen /\ t.i \notin revoked /\ t.e = epoch
      /\ (hist[Len(hist)].op.scope = "assertionMethod" => InAssertion(m))
 
 \* a purged key never comes back: every token whose generation is not the current one of its fragment is dead for good
@@ -151,6 +172,6 @@ LastE == hist'[Len(hist')]
 Effective == LastE.res.ok \/ LastE.op.name = "validate"
 EffectiveMostly == Effective \/ RandomElement(1..5) = 1
 
-View == <<meth, nextGen, revoked, tokens, Len(hist)>>
+View == <<meth, nextGen, revoked, tokens, epoch, Len(hist)>>
 Emit == Len(hist) < Depth \/ PrintT(<<"CASE", ToJson([ops |-> hist])>>)
 =============================================================================
